@@ -14,6 +14,12 @@ fn point(kind: i128, a: &[i128]) -> PointIndex {
     }
 }
 
+// the SECOND ROUTE to every coordinate: the Spatial / Temporable / SpaceTemporal trait methods (generic code reads the nodes
+// through them); a difference between a trait accessor and the inherent getter appends the marker 7700000 + coordinate number
+fn sx<S: Spatial<i64>>(s: &S) -> (i64, i64, i64) { (*s.x(), *s.y(), *s.z()) }
+fn tu<T: Temporable<i64>>(t: &T) -> i64 { *t.time_unit() }
+fn st4<S: SpaceTemporal<i64>>(s: &S) -> i64 { *s.t() }
+
 fn drive<const W: usize, const H: usize, const D: usize, const C: usize>(args: &[i128]) -> Vec<i128> {
     let (nk, op, gk) = (args[0], args[1], args[2]);
     let n = [args[7] as i64, args[8] as i64, args[9] as i64, args[10] as i64];
@@ -37,17 +43,32 @@ fn drive<const W: usize, const H: usize, const D: usize, const C: usize>(args: &
             let mut d = AdjustableTime::new(7, TimeScale::Minute, n[0]);
             let ok = if op == 0 { d.update(&g).is_ok() } else { d.adjust(&g).is_ok() };
             let keep = (*d.time_scale() == TimeScale::Minute) as i128;
-            vec![ok as i128 * keep, *d.time_unit() as i128, n[1] as i128, n[2] as i128, n[3] as i128]
+            let mut out = vec![ok as i128 * keep, *d.time_unit() as i128, n[1] as i128, n[2] as i128, n[3] as i128];
+            if tu(&d) != *d.time_unit() { out.push(7700001); }
+            if Temporable::time_scale(&d) != TimeScale::Minute { out.push(7700005); }
+            out
         }
         2 => {
             let mut d = AdjustableSpace::new(7, n[0], n[1], n[2]);
             let ok = if op == 0 { d.update(&g).is_ok() } else { d.adjust(&g).is_ok() };
-            vec![ok as i128, *d.x() as i128, *d.y() as i128, *d.z() as i128, n[3] as i128]
+            let mut out = vec![ok as i128, *d.x() as i128, *d.y() as i128, *d.z() as i128, n[3] as i128];
+            let (tx, ty, tz) = sx(&d);
+            if tx != *d.x() { out.push(7700001); }
+            if ty != *d.y() { out.push(7700002); }
+            if tz != *d.z() { out.push(7700003); }
+            out
         }
         _ => {
             let mut d = AdjustableSpaceTime::new(7, TimeScale::Minute, n[3], n[0], n[1], n[2]);
             let ok = if op == 0 { d.update(&g).is_ok() } else { d.adjust(&g).is_ok() };
-            vec![ok as i128, *d.x() as i128, *d.y() as i128, *d.z() as i128, *d.time_unit() as i128]
+            let mut out = vec![ok as i128, *d.x() as i128, *d.y() as i128, *d.z() as i128, *d.time_unit() as i128];
+            let (tx, ty, tz) = sx(&d);
+            if tx != *d.x() { out.push(7700001); }
+            if ty != *d.y() { out.push(7700002); }
+            if tz != *d.z() { out.push(7700003); }
+            if tu(&d) != *d.time_unit() || st4(&d) != *d.time_unit() { out.push(7700004); }
+            if Temporable::time_scale(&d) != TimeScale::Minute { out.push(7700005); }
+            out
         }
     }
 }
